@@ -262,6 +262,38 @@ theorem nextWith_shrinks (cc : CharClass) (P : Profile) (argsF : List Char → P
             · unfold textPiece
               exact ok_of _ _ (List.dropWhile_suffix _)
 
+theorem doubledClose_suffix {P : Profile} {c : Char} {r r2 : List Char} (h : doubledClose P c r = some r2) :
+    r2 <:+ r := by
+  unfold doubledClose at h
+  split at h
+  · exact doubled_suffix h
+  · cases h
+
+theorem argBody_succ_some (cc : CharClass) (P : Profile) (f : Nat) (c : Char) (r : List Char) (acc : List Piece)
+    (r2 : List Char) (h : doubledClose P c r = some r2) :
+    argBody cc P (f + 1) (c :: r) acc = argBody cc P f r2 (acc ++ [.text [')']]) := by
+  rw [argBody]; simp only [h]
+
+theorem argBody_succ_none (cc : CharClass) (P : Profile) (f : Nat) (c : Char) (r : List Char) (acc : List Piece)
+    (h : doubledClose P c r = none) :
+    argBody cc P (f + 1) (c :: r) acc =
+      if c = ')' then .ok acc r
+      else
+        match nextWith cc P (fun x => argsLoop cc P f x []) (c :: r) with
+        | .ok (some p) r' => argBody cc P f r' (acc ++ [p])
+        | .ok none r' => .fail eUnclosedParen r'
+        | .fail e r' => .fail e r'
+        | .panic w => .panic w
+        | .fuel => .fuel := by
+  rw [argBody]; simp only [h]
+  split
+  · rfl
+  · cases nextWith cc P (fun x => argsLoop cc P f x []) (c :: r) with
+    | ok o r' => cases o <;> rfl
+    | fail e r' => rfl
+    | panic w => rfl
+    | fuel => rfl
+
 /-- every parser function returns a suffix of its input, for any fuel -/
 theorem args_body_suffix (cc : CharClass) (P : Profile) : ∀ f : Nat,
     (∀ s acc, (argsLoop cc P f s acc).RestSuffix s) ∧ (∀ s acc, (argBody cc P f s acc).RestSuffix s) := by
@@ -299,7 +331,18 @@ theorem args_body_suffix (cc : CharClass) (P : Profile) : ∀ f : Nat,
       cases s with
       | nil => simp [argBody, PR.RestSuffix]
       | cons c r =>
-        rw [argBody]
+        cases hdc : doubledClose P c r
+        case some r2 =>
+          rw [argBody_succ_some cc P f c r acc r2 hdc]
+          have hb := ihB r2 (acc ++ [.text [')']])
+          have hs := doubledClose_suffix hdc
+          generalize argBody cc P f r2 (acc ++ [.text [')']]) = res at hb
+          cases res with
+          | ok v r'' => simp only [PR.RestSuffix] at hb ⊢; exact suffix_of_cons (hb.trans hs)
+          | fail e r'' => simp only [PR.RestSuffix] at hb ⊢; exact suffix_of_cons (hb.trans hs)
+          | panic w => simp [PR.RestSuffix]
+          | fuel => simp [PR.RestSuffix]
+        rw [argBody_succ_none cc P f c r acc hdc]
         split
         · simp only [PR.RestSuffix]; exact List.suffix_cons _ _
         · have hn := nextWith_shrinks cc P (fun x => argsLoop cc P f x []) (c :: r) (fun x => ihA x [])
@@ -427,7 +470,12 @@ theorem args_body_ne_fuel (cc : CharClass) (P : Profile) : ∀ f : Nat,
       | nil => simp [argBody]
       | cons c r =>
         simp only [List.length_cons] at hlen
-        rw [argBody]
+        cases hdc : doubledClose P c r
+        case some r2 =>
+          rw [argBody_succ_some cc P f c r acc r2 hdc]
+          have := (doubledClose_suffix hdc).length_le
+          exact ihB r2 _ (by omega)
+        rw [argBody_succ_none cc P f c r acc hdc]
         split
         · simp
         · have hn := nextWith_shrinks cc P (fun x => argsLoop cc P f x []) (c :: r)
@@ -486,7 +534,12 @@ theorem args_body_fuel_irrel (cc : CharClass) (P : Profile) : ∀ f : Nat,
         | nil => simp [argBody]
         | cons c r =>
           simp only [List.length_cons] at hlen hlen'
-          rw [argBody, argBody]
+          cases hdc : doubledClose P c r
+          case some r2 =>
+            rw [argBody_succ_some cc P f c r acc r2 hdc, argBody_succ_some cc P f' c r acc r2 hdc]
+            have := (doubledClose_suffix hdc).length_le
+            exact ihB f' r2 _ (by omega) (by omega)
+          rw [argBody_succ_none cc P f c r acc hdc, argBody_succ_none cc P f' c r acc hdc]
           split
           · rfl
           · have hcongr : nextWith cc P (fun x => argsLoop cc P f' x []) (c :: r) =
@@ -682,7 +735,11 @@ theorem args_body_ne_panic (cc : CharClass) (P : Profile) : ∀ f : Nat,
       cases s with
       | nil => simp [argBody]
       | cons c r =>
-        rw [argBody]
+        cases hdc : doubledClose P c r
+        case some r2 =>
+          rw [argBody_succ_some cc P f c r acc r2 hdc]
+          exact ihB r2 _ (hs.suffix (suffix_of_cons (doubledClose_suffix hdc))) w
+        rw [argBody_succ_none cc P f c r acc hdc]
         split
         · simp
         · have hn := nextWith_shrinks cc P (fun x => argsLoop cc P f x []) (c :: r)
@@ -833,7 +890,11 @@ theorem args_body_fail (cc : CharClass) (P : Profile) : ∀ f : Nat,
       cases s with
       | nil => simp [argBody] at h; exact ⟨h.1.symm, h.2⟩
       | cons c t =>
-        rw [argBody] at h
+        cases hdc : doubledClose P c t
+        case some r2 =>
+          rw [argBody_succ_some cc P f c t acc r2 hdc] at h
+          exact ihB _ _ _ _ h
+        rw [argBody_succ_none cc P f c t acc hdc] at h
         split at h
         · cases h
         · have hn := nextWith_shrinks cc P (fun x => argsLoop cc P f x []) (c :: t)
